@@ -19,7 +19,7 @@ RULE = ("stateless schedule exploration of the real threads {k callers, worker s
         "arrival, with/without an unsolicited answer, peer answering eagerly or lazily; one caller that sends the same "
         "request again once answered (peer quick / slow / sending the first answer twice); two connections (two workers) "
         "with the same Hop-by-Hop identifier outstanding on both, answers in either order; a connection that ends right "
-        "behind its answer (d <= 1; thorough d <= 2 on the one-connection case); a state = one executed schedule")
+        "behind its answer (these three families at d <= 1 in both tiers); a state = one executed schedule")
 ASSUMPTIONS = [
     "Worker runs in-process with a stand-in manager whose Event/Queue/Lock are virtual-runtime primitives; "
     "the connection layer below the worker is a stub that hands each request to the scripted peer",
@@ -337,10 +337,10 @@ def scenarios(tier):
 
 
 def bound_for(scn, tier):
-    if scn.name == "two-connections":
-        # d = 2 costs ~400 000 executions per two-connection scenario: one of them in the thorough tier
-        deep = scn.params.get("connections", 2) == 1
-        return 2 if (tier == "thorough" and deep) else 1
+    if scn.name == "two-connections" or scn.params.get("resend"):
+        # the families added last (two connections, a connection ending behind its answer, a repeated request) are
+        # explored at d <= 1 in both tiers (d = 2 costs ~400 000 executions per two-connection scenario)
+        return 1
     k = scn.params["k"]
     if tier == "quick":
         return 1
